@@ -147,3 +147,53 @@ def activity_index(spec):
     if spec["family"] == "VG":
         return 0.0
     return float(spec["params"]["y"])
+
+
+# ------------------------------------------------------------------------------------------------
+# Levy copula models
+# ------------------------------------------------------------------------------------------------
+def gen_copula_spec(rng, kind=None):
+    kind = kind or str(rng.choice(["clayton", "clayton", "independent", "dependent"]))
+    if kind == "clayton":
+        eta = float(rng.choice([0.0, 1.0, r6(rng.uniform(0.05, 0.95)), r6(rng.uniform(0.05, 0.95))]))
+        return {"kind": "clayton", "theta": r6(_logu(rng, 0.2, 8.0)), "eta": eta}
+    return {"kind": kind}
+
+
+def build_copula(cspec):
+    from rpylib.distribution.levycopula import ClaytonCopula, IndependentComponentsCopula, DependentComponentsCopula
+
+    if cspec["kind"] == "clayton":
+        return ClaytonCopula(theta=cspec["theta"], eta=cspec["eta"])
+    if cspec["kind"] == "independent":
+        return IndependentComponentsCopula()
+    return DependentComponentsCopula()
+
+
+def gen_copula_model_spec(rng, dim=None, kind=None, families=None, exp=False):
+    dim = dim or int(rng.choice([2, 3]))
+    fams = families or [str(rng.choice(FAMILIES)) for _ in range(dim)]
+    margins = [gen_model_spec(rng, f, exp=exp) for f in fams]
+    return {"margins": margins, "copula": gen_copula_spec(rng, kind)}
+
+
+def build_copula_model(cmspec):
+    from rpylib.model.levycopulamodel import LevyCopulaModel
+
+    return LevyCopulaModel(models=[build_model(m) for m in cmspec["margins"]], copula=build_copula(cmspec["copula"]))
+
+
+def copula_label(cmspec):
+    c = cmspec["copula"]
+    lab = c["kind"]
+    if c["kind"] == "clayton":
+        lab += "[eta=0]" if c["eta"] == 0 else ("[eta=1]" if c["eta"] == 1 else "")
+    return f"{lab}-{len(cmspec['margins'])}d"
+
+
+def build_any_model(spec):
+    return build_copula_model(spec) if "margins" in spec else build_model(spec)
+
+
+def any_label(spec):
+    return copula_label(spec) if "margins" in spec else model_label(spec)
